@@ -32,6 +32,8 @@ OPS: List[Rec] = [
     op("SP_v_a1", "spawn", key="v", eid="a1"),
     op("SP_w_a2_s1", "spawn", key="w", eid="a2", sid="s1"),
     op("SP_v_s1", "spawn", key="v", sid="s1"),
+    op("SP_v_w", "spawn", key="v", eid="w"),          # an explicit id equal to the service key another child is spawned from
+    op("SP_v_ids1", "spawn", key="v", eid="s1"),      # an explicit id equal to another actor's systemId
     op("ST_a1_X", "send", to="a1", ev="X"),
     op("ST_w_X", "send", to="w", ev="X"),
     op("ST_s1_Y", "send", to="s1", ev="Y"),
@@ -40,6 +42,7 @@ OPS: List[Rec] = [
     op("ST_a1_ESC", "send", to="a1", ev="ESC"),
     op("ST_a1_GSP", "send", to="a1", ev="GSP"),
     op("ST_a1_GST", "send", to="a1", ev="GST"),
+    op("ST_a1_FIN", "send", to="a1", ev="FIN"),       # the child reaches its final state (status done)
     op("ST_sg_X", "send", to="sg", ev="X"),
     op("FW_a1", "send", to="a1", ev="FW_a1"),
     op("STD_a1_X_50_i1", "send", to="a1", ev="X", delay=50, sid="i1"),
@@ -94,7 +97,8 @@ class World:
             "ESC": {"actions": ["rec", {"type": "xstate.escalate", "params": {"error": "boom"}}]},
             "GSP": {"actions": ["rec", {"type": "xstate.spawnChild", "params": {"src": "g", "id": "g1", "systemId": "sg"}}]},
             "GST": {"actions": ["rec", {"type": "xstate.sendTo", "params": {"to": "g1", "event": "X"}}]},
-            "*": {"actions": ["rec"]}}}}}
+            "FIN": {"target": "fin", "actions": ["rec"]},
+            "*": {"actions": ["rec"]}}}, "fin": {"type": "final"}}}
         self.kid = create_machine(kid_cfg, logic=MachineLogic(actions={"rec": record}, services={"g": self.g}))
         on: Dict[str, Any] = {o["name"]: {"actions": ["rec", builtin_for(o)]} for o in OPS}
         on["PONG"] = {"actions": ["rec"]}
@@ -137,12 +141,13 @@ def observe(root, world: World, canon: Canon, loop: VLoop, pending: list) -> dic
         canon(a.id)
     reachable = {id(a) for a in actors}
     alive = sorted(canon(a.id) for a in actors if a.status == "running")
+    fin = sorted(canon(a.id) for a in actors if a.status == "done")
     orphans = [canon(a.id) for a in world.instances if id(a) not in reachable and a.status == "running"]
     kids = {canon(a.id): sorted(canon(k) for k in a._actors) for a in actors if a.status == "running" or a is root}
     sysreg = {k: canon(v.id) for k, v in root._system.items()}
     rec = {canon(k): list(v) for k, v in world.rec.items() if v}
     pend = sorted([[sid or NONE, canon(to), ev, due] for (sid, to, ev, due, task) in pending if not task.done()])
-    return {"alive": alive, "orphans": orphans, "kids": kids, "sys": sysreg, "rec": rec, "pend": pend,
+    return {"alive": alive, "fin": fin, "orphans": orphans, "kids": kids, "sys": sysreg, "rec": rec, "pend": pend,
             "now": round(loop.time() * 1000)}
 
 
@@ -230,7 +235,7 @@ def canon_astate(s: dict) -> dict:
     def fix(x):
         return {} if isinstance(x, list) else dict(x)
     alive = sorted(s.get("alive") or [])
-    return {"alive": alive, "orphans": list(s.get("orphans") or []), "kids": {k: sorted(v) for k, v in fix(s.get("kids") or {}).items() if k in alive or k == "m"},
+    return {"alive": alive, "fin": sorted(s.get("fin") or []), "orphans": list(s.get("orphans") or []), "kids": {k: sorted(v) for k, v in fix(s.get("kids") or {}).items() if k in alive or k == "m"},
             "sys": fix(s.get("sys") or {}), "rec": {k: list(v) for k, v in fix(s.get("rec") or {}).items() if v},
             "pend": sorted([list(p) for p in (s.get("pend") or [])]),
             # registration numbers: part of the state's identity (history), never compared with the engine
